@@ -26,6 +26,9 @@ import (
 
 type scriptStats struct {
 	redundant, blind, probes, nexts int
+	// between, when set, runs after the HasNext calls and before the Next of element pos
+	// (family 4: runtime.GC() between HasNext and Next)
+	between func(pos int)
 }
 
 func safeNext[T any](it fp.Iterator[T]) (v T, panicked bool) {
@@ -77,6 +80,9 @@ func runScript[T comparable](it fp.Iterator[T], ref []T, unordered bool, pr *ran
 		}
 		if nh == 0 {
 			st.blind++
+		}
+		if st.between != nil {
+			st.between(pos)
 		}
 		v, panicked := safeNext(it)
 		st.nexts++
